@@ -134,14 +134,19 @@ func dashable(ps []mt.Piece) []int {
 
 // applyDashes returns (dashed pieces, hand-trimmed pieces, borders-whitespace?)
 func applyDashes(ps []mt.Piece, tags []int, mask uint64) ([]mt.Piece, []mt.Piece, bool) {
+	return applyDashBits(ps, tags, func(i int) bool { return i < 64 && mask&(1<<uint(i)) != 0 })
+}
+
+// applyDashBits: bit(2k) = left dash of tag k, bit(2k+1) = its right dash (any number of tags).
+func applyDashBits(ps []mt.Piece, tags []int, bit func(int) bool) ([]mt.Piece, []mt.Piece, bool) {
 	dashed := make([]mt.Piece, len(ps))
 	hand := make([]mt.Piece, len(ps))
 	copy(dashed, ps)
 	copy(hand, ps)
 	effective := false
 	for k, ti := range tags {
-		l := mask&(1<<(2*k)) != 0
-		rr := mask&(1<<(2*k+1)) != 0
+		l := bit(2 * k)
+		rr := bit(2*k + 1)
 		dashed[ti].DashL, dashed[ti].DashR = l, rr
 		if l && ti > 0 && !hand[ti-1].Tag {
 			t := strings.TrimRight(hand[ti-1].Text, wsChars)
@@ -162,7 +167,11 @@ func applyDashes(ps []mt.Piece, tags []int, mask uint64) ([]mt.Piece, []mt.Piece
 }
 
 func (p *c13) check(rec *core.Recorder, class string, srcsPlain map[string]string, main string, ps []mt.Piece, tags []int, mask uint64, ctx map[string]interface{}) {
-	dashed, hand, effective := applyDashes(ps, tags, mask)
+	p.checkBits(rec, class, srcsPlain, main, ps, tags, func(i int) bool { return i < 64 && mask&(1<<uint(i)) != 0 }, ctx)
+}
+
+func (p *c13) checkBits(rec *core.Recorder, class string, srcsPlain map[string]string, main string, ps []mt.Piece, tags []int, bit func(int) bool, ctx map[string]interface{}) {
+	dashed, hand, effective := applyDashBits(ps, tags, bit)
 	dsrc, hsrc, psrc := mt.Join(dashed), mt.Join(hand), mt.Join(ps)
 	mk := func(s string) map[string]string {
 		m := map[string]string{}
@@ -257,6 +266,37 @@ func (p *c13) Run(rec *core.Recorder, seed uint64, idx int, tier string) {
 		}
 		p.check(rec, "corpus-exhaustive", srcs, "main", ps, tags, mask, ctxToGo(c13Ctx()))
 		rec.Count("corpus:"+e.name, 1)
+		return
+	}
+	if idx%16 == 5 {
+		// many dashed delimiters in one template (dozens to hundreds): a unit of print, if/else and for tags between blank
+		// runs, repeated; every delimiter, or a random subset of them, carries a dash
+		unit := []mt.Piece{{Kind: "text", Text: "a" + randWS(r)}, {Kind: "print", Tag: true, Open: "{{", Inner: " v ", Close: "}}"}, {Kind: "text", Text: randWS(r) + "b" + randWS(r)},
+			{Kind: "if", Tag: true, Open: "{%", Inner: " if t ", Close: "%}"}, {Kind: "text", Text: randWS(r) + "x" + randWS(r)}, {Kind: "else", Tag: true, Open: "{%", Inner: " else ", Close: "%}"}, {Kind: "text", Text: "y"},
+			{Kind: "endif", Tag: true, Open: "{%", Inner: " endif ", Close: "%}"}, {Kind: "text", Text: randWS(r)}, {Kind: "for", Tag: true, Open: "{%", Inner: " for i in xs ", Close: "%}"}, {Kind: "text", Text: randWS(r) + "."},
+			{Kind: "endfor", Tag: true, Open: "{%", Inner: " endfor ", Close: "%}"}, {Kind: "text", Text: randWS(r) + ";"}}
+		reps := []int{6, 11, 12, 17, 23, 44, 90, 200}[r.Intn(8)]
+		var ps []mt.Piece
+		for k := 0; k < reps; k++ {
+			ps = append(ps, unit...)
+		}
+		tags := dashable(ps)
+		mode := r.Intn(3)
+		seedBits := r.U64()
+		bit := func(i int) bool {
+			switch mode {
+			case 0:
+				return true
+			case 1:
+				return core.Hash64(fmt.Sprint(seedBits, i))%2 == 0
+			}
+			return i >= 2*len(tags)-int(seedBits%40)-2 // only the last few delimiters
+		}
+		rec.Count("many-dash-templates", 1)
+		if 2*len(tags) > 64 {
+			rec.Count("templates-with-more-than-64-dashed-delimiters", 1)
+		}
+		p.checkBits(rec, "many-dashes", map[string]string{}, "main", ps, tags, bit, map[string]interface{}{"v": "V", "t": r.Bool(), "xs": []interface{}{1, 2}})
 		return
 	}
 	// generated programs, random subsets
